@@ -832,6 +832,8 @@ def run(ctx):
         if "error" in res:
             exc = res["error"].split(":")[0]
             sig = "C10:%s:raises:%s" % (kind, exc)
+            if exc == "StepBudgetExceeded":
+                sig = "C10:%s:training does not terminate on a proper MDP (step budget of the recording listener exceeded)" % kind
             if exc == "OverflowError" and "epsilon_softmax_sample" in res.get("trace", ""):
                 sig = "C10:softmax-sample-overflows-for-large-q-over-temperature"
             ctx.violation(sig, {"case": case, "error": res["error"], "trace": res.get("trace", "")}, found=True)
